@@ -539,6 +539,7 @@ func (c *vcCase) emit(out *verifOut, cs, op string, tags ...string) {
 	synctest.Wait()
 	obs := c.observe()
 	out.line(cs, op, obs, tags...)
+	out.flush() // a panic on an SDK goroutine (e.g. "retire called twice" in the reader) kills the process: keep what was observed
 	c.steps++
 }
 
